@@ -37,7 +37,7 @@ RULE = (
     "plot_gantt_chart and GanttChartCreator.plot_gantt_chart: the PolyCollections "
     "of the Axes are read back - their multiset of (x0, x1, y0, y1, colour) "
     "must equal {(start, end, 1+10m, 10+10m, colour(job))} over scheduled "
-    "operations, colour a function of the job, injective over the jobs shown "
+    "operations, colour a function of the job, injective over the jobs shown (asserted for instances of at most 10 jobs: a qualitative colour map has ten colours) "
     "and equal to the legend patch with that job's label, legend labels = jobs "
     "shown in order, x axis = (0, xlim or makespan) with the last tick there "
     "(when positive); optionally a second chart of another schedule of the same instance is drawn before the first is inspected. Kind 'anim': instance x history of n operations (n in "
@@ -113,9 +113,51 @@ def strategy(tier):
             "mode": draw(gen.pick(["order", "order_video"] if big else ["order"])),
         }
 
+    @st.composite
+    def many_jobs(draw):
+        # more than 10 / more than 15 jobs: two-digit job labels, long legends
+        n_j = draw(st.integers(11, 18))
+        n_m = draw(st.integers(2, 4))
+        return {
+            "durations": [[draw(st.integers(1, 4))] + ([draw(st.integers(1, 3))] if draw(st.integers(0, 4)) == 0 else []) for _ in range(n_j)],
+            "machines": None,
+            "n_m": n_m,
+        }
+
+    def finish(i):
+        i = dict(i)
+        n_m = i.pop("n_m")
+        i["machines"] = [[[(j + 2 * p) % n_m] for p in range(len(row))] for j, row in enumerate(i["durations"])]
+        i.update({"name": "many", "meta": {}, "ints": True, "family": "many_jobs"})
+        return i
+
+    many = many_jobs().map(finish)
+    many_anim = st.fixed_dictionaries(
+        {
+            "kind": st.just("anim"),
+            "inst": many,
+            "history": gen.histories(max_len=24, max_a=31),
+            "mode": gen.pick(["gif", "creator", "frames", "solver", "order_creator_history"]),
+            "rule": gen.pick(["most_work_remaining", "shortest_processing_time"]),
+        }
+    )
+    many_chart = st.fixed_dictionaries(
+        {
+            "kind": st.just("chart"),
+            "inst": many,
+            "history": gen.histories(max_len=24, max_a=31),
+            "cut": gen.weighted((2, st.none()), (1, st.integers(11, 20))),
+            "xlim_extra": st.one_of(st.none(), st.integers(0, 7)),
+            "cmap": st.sampled_from(["viridis", "tab10"]),
+            "labels": st.booleans(),
+            "via_creator": st.booleans(),
+            "earlier": st.just(False),
+            "second_chart": st.just(False),
+        }
+    )
     if big:
-        return gen.weighted((12, chart), (4, short), (1, long_()))
-    return gen.weighted((9, chart), (6, short))
+        return gen.weighted((12, chart), (4, short), (1, long_()), (2, many_anim), (2, many_chart))
+    return gen.weighted((9, chart), (6, short), (1, many_anim), (2, many_chart))
 
 
 def fixed_cases(tier):
@@ -158,8 +200,33 @@ def fixed_cases(tier):
             "via_creator": False,
         }
     )
+    # more than 10 jobs (two-digit legend labels) through the default plotter,
+    # and a chart whose legend has 17 entries
+    twelve = {
+        "durations": [[1 + (j % 3), 1 + ((2 * j) % 4)] for j in range(12)],
+        "machines": [[[j % 3], [(j + 1) % 3]] for j in range(12)],
+        "name": "twelve",
+        "meta": {},
+        "ints": True,
+        "family": "many_jobs",
+    }
+    for mode in ("gif", "creator"):
+        cases.append({"kind": "anim", "inst": twelve, "history": [[k, 0] for k in range(24)], "mode": mode, "rule": "most_work_remaining"})
+    seventeen = {
+        "durations": [[1 + (j % 4)] for j in range(17)],
+        "machines": [[[j % 4]] for j in range(17)],
+        "name": "seventeen",
+        "meta": {},
+        "ints": True,
+        "family": "many_jobs",
+    }
+    for via in (False, True):
+        cases.append(
+            {"kind": "chart", "inst": seventeen, "history": [[3 * k, 0] for k in range(17)], "cut": None, "xlim_extra": None, "cmap": "viridis", "labels": False, "via_creator": via}
+        )
     if tier == "thorough":
         cases.append({"kind": "anim", "inst": inst, "history": hist, "mode": "order_video"})
+        cases.append({"kind": "anim", "inst": twelve, "history": [[k, 0] for k in range(24)], "mode": "order_video"})
     return cases
 
 
@@ -245,11 +312,14 @@ def check_chart_axes(ctx, ax, model, n_jobs, where, xlim=None, job_labels=None, 
         for j, cs in colour_of.items():
             ctx.check(len(cs) == 1, "colour-not-per-job", f"{where}: job {j} drawn with colours {cs}")
         flat = {j: next(iter(cs)) for j, cs in colour_of.items()}
-        ctx.check(
-            len(set(flat.values())) == len(flat),
-            "colour-not-injective",
-            f"{where}: two jobs share a colour: {flat}",
-        )
+        # distinct jobs get distinct colours whenever the colour map has
+        # enough of them (a qualitative map such as tab10 has ten)
+        if n_jobs <= 10:
+            ctx.check(
+                len(set(flat.values())) == len(flat),
+                "colour-not-injective",
+                f"{where}: two jobs share a colour: {flat}",
+            )
         legend = ax.get_legend()
         jobs_shown = sorted(flat)
         if legend is not None:
